@@ -140,6 +140,13 @@ CLAIMED = {
    "(c) sqlite InspectRealm/InspectSchema with Exclude on real databases against the same reference; `atlas schema apply --exclude <tables>` must leave excluded tables byte-identical while the rest converges; `--env` with diff.skip must never perform a skipped kind of change (observed in the independent catalog).",
    "The cascade from an excluded column to its indexes/FKs is judged only when no selector restricts the kinds (unspecified otherwise). Foreign keys of kept tables that point at excluded tables are not compared. Skippable kinds are the table-level ones of cmdapi.SkipChanges that the generated schemas can produce.",
    "4/C19"),
+ "C07": ("exploration",
+   "rapid PBT with adversarial string injection; round-trip oracle plan -> formatter -> directory reader -> dialect statement scanner == Plan.Changes[].Cmd; plus the real `atlas migrate import`",
+   "Plans of the MySQL, PostgreSQL and SQLite planners (create all, drop all, catalogue edits) over a feature-rich schema with adversarial strings (all three quote kinds, ';', ';\\n', '--', '/*', '*/', '#', '$$', backslashes, newlines, DELIMITER, GO, atlas:delimiter) injected into comments, defaults, check literals, enum values and, as a separate sub-check, identifiers, "
+   "are formatted with every formatter (atlas incl. custom delimiters, golang-migrate, goose, flyway, liquibase, dbmate) and indent option, written to disk, read back through the matching directory type and migrate.FileStmts(driver, file) — the path `migrate apply` uses. "
+   "The statements read must equal the planned ones in count, order and text. For third-party formats the real `atlas migrate import` is run as well and the imported Atlas directory must validate and hold the same statement sequence.",
+   "Injected literals are valid SQL literals of the dialect (MySQL backslashes doubled), as an inspector or HCL evaluation would yield them. No server executes the SQL. Three known findings are excluded by predicate and counted (evidence.excluded_known_findings).",
+   "4/C07"),
 }
 PENDING_REASON = "check not built yet in this session (planned in DESIGN.md section 4; will be claimed once its quick check is green and sensitivity-tested)"
 
